@@ -40,6 +40,8 @@ where
     }
 
     pub fn start(&self, goal: &Goal<U, E>, state: State<U, E>) -> Stream<U, E> {
+        #[cfg(terohuttunen_proto_vulcan_verif)]
+        crate::verif_hooks::on_step();
         match goal {
             Goal::Succeed => Stream::unit(Box::new(state)),
             Goal::Fail => Stream::empty(),
@@ -59,6 +61,8 @@ where
     }
 
     pub fn start_dfs(&self, goal: &DFSGoal<U, E>, state: State<U, E>) -> Stream<U, E> {
+        #[cfg(terohuttunen_proto_vulcan_verif)]
+        crate::verif_hooks::on_step();
         match goal {
             DFSGoal::Succeed => Stream::unit(Box::new(state)),
             DFSGoal::Fail => Stream::empty(),
